@@ -65,6 +65,8 @@ def _rect(x):
 
 def enc(x):
     """canonical tagged form of a Python / numpy attribute value"""
+    if x is None:
+        return ["z"]
     if isinstance(x, (bool, np.bool_)):
         return ["b", bool(x)]
     if isinstance(x, (int, np.integer)):
@@ -95,6 +97,8 @@ def _unflatten(shape, leaves):
 def dec(t):
     """Python value (plain scalars and nested lists) of a tagged value"""
     k = t[0]
+    if k == "z":
+        return None
     if k == "b":
         return bool(t[1])
     if k == "i":
@@ -156,9 +160,14 @@ def norm_value(t):
 
 
 def norm_graph(G):
+    """the attribute graph a written graph denotes: numpy scalars are their Python values; an
+    attribute holding None (admitted next to list values only) is a missing value — the documented
+    convention of construct_var_len_props, honoured by dict_props_to_arr since repair C03-06"""
+    def attrs(a):
+        return {k: norm_value(v) for k, v in a.items() if v[0] != "z"}
     return {"directed": G["directed"],
-            "nodes": [[i, {k: norm_value(v) for k, v in a.items()}] for i, a in G["nodes"]],
-            "edges": [[list(e), {k: norm_value(v) for k, v in a.items()}] for e, a in G["edges"]]}
+            "nodes": [[i, attrs(a)] for i, a in G["nodes"]],
+            "edges": [[list(e), attrs(a)] for e, a in G["edges"]]}
 
 
 def diff_graphs(exp, obs):
@@ -1049,6 +1058,8 @@ def classify(stage, G, diffs=None, exc=None):
             return "C03:sg-nodes-without-edges"
         return f"C03:{stage}:raises-{exc['exc']}"
     cls, text = diffs[0]
+    if cls == "absent-shown" and any(v[0] == "z" for _, a in list(G["nodes"]) + list(G["edges"]) for v in a.values()):
+        return "C03:none-entry-of-ragged-property-not-flagged-missing"
     if cls == "kind" and "kind bool -> int" in text:
         return "C03:bool-with-missing-becomes-int"
     if cls in ("kind", "leaf-kind", "value") and ragged_big:
@@ -1090,10 +1101,13 @@ def check_dict_props(ck, case, res):
         P = res["props"][name]
         for i, (_, a) in enumerate(case["data"]):
             miss = P["missing"] is not None and P["missing"][i]
-            if (name not in a) != miss:
-                ck.fail("C03:dict_props_to_arr:missing-mask", f"element {i} of {name!r}: present={name in a} but missing={miss}", case, P, None)
+            has = name in a and a[name][0] != "z"  # absent or None = missing
+            if has == miss:
+                key = ("C03:none-entry-of-ragged-property-not-flagged-missing" if name in a and not has
+                       else "C03:dict_props_to_arr:missing-mask")
+                ck.fail(key, f"element {i} of {name!r}: value={a.get(name, 'absent')} but missing={miss}", case, P, None)
                 return
-            if name in a:
+            if has:
                 got = row_value(P, i)
                 if got != a[name]:
                     G = {"nodes": case["data"], "edges": []}
@@ -1122,6 +1136,83 @@ def gen_dict_case(rng, kinds=KINDS, mixed=False):
     if rng.random() < 0.15:
         names.append("never_present")
     return {"data": data, "names": names, "mixed": mixed}
+
+
+NONE_STATES = ["absent", "none", "reg", "ragged", "empty"]
+
+
+def none_combo_values(states, variant=0):
+    """tagged values (None entry = element lacks the attribute) of one property whose elements are in
+    the given states; None is admitted next to list values only, so at least one state must be a
+    list (else: returns None).  Leaves are floats whenever an empty list occurs (an empty Python
+    list is a float64 array), otherwise the class cycles with `variant`."""
+    if not any(st in ("reg", "ragged", "empty") for st in states):
+        return None
+    lk = "float" if "empty" in states else ["int", "float", "bool", "str"][variant % 4]
+    two_d = (variant // 4) % 3 == 2 and "empty" not in states
+    mk = {"int": lambda j: ["i", str(j - 3)], "float": lambda j: ["f", f2h(j + 0.5)],
+          "bool": lambda j: ["b", j % 2 == 0], "str": lambda j: ["s", "abcdef"[j % 6]]}[lk]
+    out, r = [], 0
+    for pos, st in enumerate(states):
+        if st == "absent":
+            out.append(None)
+        elif st == "none":
+            out.append(["z"])
+        elif st == "empty":
+            out.append(["a", [0], []])
+        else:
+            n = 2 if st == "reg" else (1, 3)[r % 2]
+            r += st == "ragged"
+            leaves = [mk(pos * 5 + j) for j in range(n * (2 if two_d else 1))]
+            out.append(["a", [n, 2] if two_d else [n], leaves])
+    return out
+
+
+def gen_none_items(rng, nsample):
+    """per property every combination of {absent, None, regular list, ragged list, empty list} over
+    <= 3 elements (node property and edge property), sampled for 4..8 elements"""
+    items = []
+    combos = [c for n in (1, 2, 3) for c in itertools.product(NONE_STATES, repeat=n)]
+    for _ in range(nsample):
+        n = rng.randint(4, 8)
+        combos.append(tuple(rng.choice(NONE_STATES) for _ in range(n)))
+    ids_pool = [7, 3, 40, 12, 5, 9, 21, 2]
+    for ci, states in enumerate(combos):
+        vals = none_combo_values(states, ci)
+        if vals is None:
+            continue
+        n = len(states)
+        directed = ci % 2 == 0
+        # node property
+        ids = [str(x) for x in ids_pool[:n]]
+        nodes = [[i, ({} if v is None else {"p": v})] for i, v in zip(ids, vals)]
+        edges = [[[ids[0], ids[-1]], {}]] if n > 1 else []
+        items.append({"G": {"directed": directed, "nodes": nodes, "edges": edges}, "tag": "none-combo:node", "states": list(states)})
+        # edge property: n distinct edges over enough nodes
+        m = 2
+        while m * (m - 1) // 2 < n:
+            m += 1
+        eids = [str(x) for x in ids_pool[:m]]
+        pairs = [(a, b) for a in range(m) for b in range(a + 1, m)][:n]
+        es = [[[eids[a], eids[b]], ({} if v is None else {"q": v})] for (a, b), v in zip(pairs, vals)]
+        items.append({"G": {"directed": not directed, "nodes": [[i, {}] for i in eids], "edges": es},
+                      "tag": "none-combo:edge", "states": list(states)})
+    return items
+
+
+def gen_none_dict_cases(rng, nsample):
+    out = []
+    combos = [c for n in (1, 2, 3) for c in itertools.product(NONE_STATES, repeat=n)]
+    for _ in range(nsample):
+        combos.append(tuple(rng.choice(NONE_STATES) for _ in range(rng.randint(4, 8))))
+    for ci, states in enumerate(combos):
+        for variant in (ci, ci + 1, ci + 10):
+            vals = none_combo_values(states, variant)
+            if vals is None:
+                continue
+            out.append({"stream": "dict", "data": [[str(i), ({} if v is None else {"p": v})] for i, v in enumerate(vals)],
+                        "names": ["p"], "mixed": False, "states": list(states)})
+    return out
 
 
 def gen_malformed(rng):
@@ -1198,7 +1289,7 @@ def roundtrip_cases(rng, items, both_formats, exhaustive_rx=False):
             if it.get("malformed") in ("neg-id",):
                 lays = [{"id_map": True, "holes": []}]
             else:
-                lays = rx_variants(rng, it, exhaustive_rx or it["tag"].startswith(("exh", "special", "corpus")))
+                lays = rx_variants(rng, it, exhaustive_rx or it["tag"].startswith(("exh", "special", "corpus", "none-combo")))
             for lay in lays:
                 cases.append({**base, "writer": "rx", "layout": lay})
     return cases
@@ -1352,7 +1443,8 @@ def do_dicts(ck, drv, cases, stats):
     if drv and model is None:
         ck.broken.append({"what": "driver Drivers/C03.lean (dictProps)", "detail": drv.broken})
     for k, (c, r) in enumerate(zip(cases, res)):
-        ck.case(c, "dict_props_to_arr:" + ("mixed-kinds" if c["mixed"] else "uniform"), nontrivial=any(a for _, a in c["data"]))
+        ck.case(c, "dict_props_to_arr:" + ("none-combo" if "states" in c else "mixed-kinds" if c["mixed"] else "uniform"),
+                nontrivial=any(a for _, a in c["data"]))
         if not c["mixed"]:
             check_dict_props(ck, c, r)
         mo = model[k] if model else None
@@ -1393,7 +1485,8 @@ def run(ck: common.Check):
                "x id sets {small,sparse,around 2^63,all >= 2^63} x directed/undirected) and seeded random graphs up to 30 nodes, each "
                "written from networkx and from rustworkx (indices as ids with holes / explicit node_id_dict with holes) and read "
                "back by every backend, zarr formats 2 and 3, MemoryStore; spatial-graph graphs of a fixed set of dtype signatures "
-               "written and read by all three; in-memory geffs (9 dtypes, scalar/vector/matrix/var-length, missing masks, 5 id "
+               "written and read by all three; per node / edge property every combination of {absent, None, regular list, ragged "
+               "list, empty list} over <=3 elements (sampled to 8) — None next to lists = missing; in-memory geffs (9 dtypes, scalar/vector/matrix/var-length, missing masks, 5 id "
                "dtypes) constructed through every backend and its adapter; dict_props_to_arr called directly. non-trivial = at "
                "least one attribute or edge; distinct = distinct canonical JSON of the case")
     rng = ck.rng
@@ -1412,6 +1505,7 @@ def run(ck: common.Check):
     nrand = 300 if ck.quick else 3500
     items += [gen_random_graph(rng) for _ in range(nrand)]
     items += [gen_random_graph(rng, nmax=8, kinds=[*KINDS, "npscalar", "npscalar", "npscalar"]) for _ in range(nrand // 4)]
+    items += gen_none_items(rng, 40 if ck.quick else 600)
     items += sg_cross_items(rng, 24 if ck.quick else 200)
     items += [gen_malformed(rng) for _ in range(60 if ck.quick else 600)]
     cases = roundtrip_cases(rng, items, both_formats=not ck.quick)
@@ -1445,6 +1539,7 @@ def run(ck: common.Check):
     nd = 2000 if ck.quick else 40000
     cd = [{"stream": "dict", **gen_dict_case(rng)} for _ in range(nd)]
     cd += [{"stream": "dict", **gen_dict_case(rng, mixed=True)} for _ in range(nd // 4)]
+    cd += gen_none_dict_cases(rng, 60 if ck.quick else 1500)
     t1 = __import__("time").time()
     do_dicts(ck, drv, cd, stats)
     phase["dicts"] = round(__import__("time").time() - t1, 1)
